@@ -42,8 +42,9 @@ extern "C" {
 #include <sanitizer/common_interface_defs.h>
 #include <sanitizer/lsan_interface.h>
 extern "C" const char* __asan_default_options() {
-  return "quarantine_size_mb=8:detect_leaks=1:detect_stack_use_after_return=1:min_uar_stack_size_log=16:max_uar_stack_size_log=17:handle_abort=0";
+  return "quarantine_size_mb=1:thread_local_quarantine_size_kb=64:detect_leaks=1:detect_stack_use_after_return=1:min_uar_stack_size_log=16:max_uar_stack_size_log=17:handle_abort=1";
 }
+extern "C" const char* __ubsan_default_options() { return "print_stacktrace=1"; }
 #endif
 
 using namespace vh;
@@ -145,9 +146,26 @@ DEF_EP(EP_PAT_MATCH, "url_pattern::match");
 DEF_EP(EP_PAT_GETTERS, "url_pattern::getters");
 DEF_EP(EP_PAT_TEST_COMPONENTS, "url_pattern::test_components");
 DEF_EP(EP_PI_PROCESS, "url_pattern_init::process");
-DEF_EP(EP_PI_PROCESS_X, "url_pattern_init::process_<component>");
+DEF_EP(EP_PI_PROTOCOL, "url_pattern_init::process_protocol");
+DEF_EP(EP_PI_USERNAME, "url_pattern_init::process_username");
+DEF_EP(EP_PI_PASSWORD, "url_pattern_init::process_password");
+DEF_EP(EP_PI_HOSTNAME, "url_pattern_init::process_hostname");
+DEF_EP(EP_PI_PORT, "url_pattern_init::process_port");
+DEF_EP(EP_PI_PATHNAME, "url_pattern_init::process_pathname");
+DEF_EP(EP_PI_SEARCH, "url_pattern_init::process_search");
+DEF_EP(EP_PI_HASH, "url_pattern_init::process_hash");
 DEF_EP(EP_PH_TOKENIZE, "url_pattern_helpers::tokenize");
-DEF_EP(EP_PH_CANON, "url_pattern_helpers::canonicalize_<component>");
+DEF_EP(EP_PH_C_PROTOCOL, "url_pattern_helpers::canonicalize_protocol");
+DEF_EP(EP_PH_C_USERNAME, "url_pattern_helpers::canonicalize_username");
+DEF_EP(EP_PH_C_PASSWORD, "url_pattern_helpers::canonicalize_password");
+DEF_EP(EP_PH_C_HOSTNAME, "url_pattern_helpers::canonicalize_hostname");
+DEF_EP(EP_PH_C_IPV6, "url_pattern_helpers::canonicalize_ipv6_hostname");
+DEF_EP(EP_PH_C_PORT, "url_pattern_helpers::canonicalize_port");
+DEF_EP(EP_PH_C_PORT_PROTO, "url_pattern_helpers::canonicalize_port_with_protocol");
+DEF_EP(EP_PH_C_PATHNAME, "url_pattern_helpers::canonicalize_pathname");
+DEF_EP(EP_PH_C_OPAQUE, "url_pattern_helpers::canonicalize_opaque_pathname");
+DEF_EP(EP_PH_C_SEARCH, "url_pattern_helpers::canonicalize_search");
+DEF_EP(EP_PH_C_HASH, "url_pattern_helpers::canonicalize_hash");
 DEF_EP(EP_PH_MISC, "url_pattern_helpers::escape/is_ipv6_address");
 // C API
 DEF_EP(EP_C_PARSE, "ada_parse");
@@ -164,7 +182,7 @@ DEF_EP(EP_C_PARAMS, "ada_search_params_*");
 // ================================================================== the case in flight (shared memory)
 enum { MAXSTEPS = 20, ARENA = 3072, NSTAGES = 20 };
 struct Step { uint16_t op, flags; uint16_t off[2], len[2]; uint16_t nargs, pad; };
-struct Case { uint32_t stage, nsteps; uint64_t unit; uint32_t used, pad; Step st[MAXSTEPS]; char arena[ARENA]; };
+struct Case { uint32_t stage, nsteps; uint64_t unit; uint32_t used, sub; Step st[MAXSTEPS]; char arena[ARENA]; };  // sub: index of the case within its unit
 enum { DT_BITS = 17, DT_SIZE = 1 << DT_BITS };
 struct Shared {
   volatile uint64_t seq;       // incremented before every library call
@@ -240,7 +258,7 @@ static const char* op_kname(int op) {
 
 static std::string_view step_arg(const Case& c, const Step& s, int i) { return std::string_view(c.arena + s.off[i], s.len[i]); }
 
-// ---- witness: flat JSON, one string per step "op:flags:nargs:hex0:hex1"
+// ---- witness: flat JSON, one string per step "operation-name:flags:nargs:hex0:hex1"
 static std::string case_show(const Case& c) {
   std::string s;
   for (uint32_t i = 0; i < c.nsteps; i++) {
@@ -264,7 +282,7 @@ static std::string case_json(const Case& c, int at, int ep, const char* kind_tag
   if (kind_tag && *kind_tag) o.str("found_as", kind_tag);
   for (uint32_t i = 0; i < c.nsteps; i++) {
     const Step& st = c.st[i];
-    std::string v = std::to_string(st.op) + ":" + std::to_string(st.flags) + ":" + std::to_string(st.nargs);
+    std::string v = std::string(op_kname(st.op)) + ":" + std::to_string(st.flags) + ":" + std::to_string(st.nargs);
     for (int a = 0; a < 2; a++) v += ":" + (a < st.nargs ? hex(step_arg(c, st, a)) : std::string());
     o.str("s" + std::to_string(i), v);
   }
@@ -293,8 +311,11 @@ static bool case_from_json(const std::string& doc, Case& c) {
     auto f = split(json_get_str(doc, "s" + std::to_string(i)), ':');
     if (f.size() < 5) return false;
     Step& st = c.st[c.nsteps++];
-    st.op = uint16_t(atoi(f[0].c_str())); st.flags = uint16_t(atoi(f[1].c_str())); st.nargs = uint16_t(atoi(f[2].c_str()));
-    if (st.op >= OPK_COUNT || st.nargs > 2) return false;
+    int opk = -1;
+    for (int o = 0; o < OPK_COUNT; o++) if (f[0] == op_kname(o)) opk = o;
+    if (opk < 0) return false;
+    st.op = uint16_t(opk); st.flags = uint16_t(atoi(f[1].c_str())); st.nargs = uint16_t(atoi(f[2].c_str()));
+    if (st.nargs > 2) return false;
     for (int a = 0; a < st.nargs; a++) {
       std::string b = unhex(f[size_t(3 + a)]);
       if (c.used + b.size() > ARENA) return false;
@@ -821,15 +842,18 @@ static void op_pattern(const Step& s, std::string_view a0, std::string_view a1) 
       break;
     case OP_PI_PROCESS:
       for (auto ty : {ada::url_pattern_init::process_type::url, ada::url_pattern_init::process_type::pattern}) {
-        call(EP_PI_PROCESS_X, [&] {
-          unsigned ok = 0;
-          for (auto r : {ada::url_pattern_init::process_protocol(a0, ty), ada::url_pattern_init::process_username(a0, ty), ada::url_pattern_init::process_password(a0, ty),
-                         ada::url_pattern_init::process_hostname(a0, ty), ada::url_pattern_init::process_port(a0, "https", ty), ada::url_pattern_init::process_port(a0, a0, ty),
-                         ada::url_pattern_init::process_pathname(a0, "https", ty), ada::url_pattern_init::process_pathname(a0, "a", ty), ada::url_pattern_init::process_pathname(a0, a0, ty),
-                         ada::url_pattern_init::process_search(a0, ty), ada::url_pattern_init::process_hash(a0, ty)})
-            if (r) { touch(*r); ok++; }
-          note(EP_PI_PROCESS_X, ok, ok);
-        });
+#define PI1(EPX, EXPR) call(EPX, [&] { auto r = (EXPR); if (r) touch(*r); note(EPX, r ? 1 : 0, r ? r->size() : 0); })
+        PI1(EP_PI_PROTOCOL, ada::url_pattern_init::process_protocol(a0, ty));
+        PI1(EP_PI_USERNAME, ada::url_pattern_init::process_username(a0, ty));
+        PI1(EP_PI_PASSWORD, ada::url_pattern_init::process_password(a0, ty));
+        PI1(EP_PI_HOSTNAME, ada::url_pattern_init::process_hostname(a0, ty));
+        PI1(EP_PI_PORT, ada::url_pattern_init::process_port(a0, "https", ty));
+        PI1(EP_PI_PORT, ada::url_pattern_init::process_port(a0, a0, ty));
+        PI1(EP_PI_PATHNAME, ada::url_pattern_init::process_pathname(a0, "https", ty));
+        PI1(EP_PI_PATHNAME, ada::url_pattern_init::process_pathname(a0, "a", ty));
+        PI1(EP_PI_PATHNAME, ada::url_pattern_init::process_pathname(a0, a0, ty));
+        PI1(EP_PI_SEARCH, ada::url_pattern_init::process_search(a0, ty));
+        PI1(EP_PI_HASH, ada::url_pattern_init::process_hash(a0, ty));
         for (int c = 0; c < 9; c++)
           call(EP_PI_PROCESS, [&] {
             ada::url_pattern_init d; set_component(d, c, a0);
@@ -848,14 +872,18 @@ static void op_pattern(const Step& s, std::string_view a0, std::string_view a1) 
         size_t n = 0; if (a) n += a->size(); if (b) { n += b->size(); for (auto& t : *b) touch(t.value); }
         note(EP_PH_TOKENIZE, (a ? 1 : 0) + (b ? 2 : 0), n);
       });
-      call(EP_PH_CANON, [&] {
-        unsigned ok = 0;
-        for (auto r : {ph::canonicalize_protocol(a0), ph::canonicalize_username(a0), ph::canonicalize_password(a0), ph::canonicalize_hostname(a0), ph::canonicalize_ipv6_hostname(a0),
-                       ph::canonicalize_port(a0), ph::canonicalize_port_with_protocol(a0, "https"), ph::canonicalize_port_with_protocol(a0, a0), ph::canonicalize_pathname(a0),
-                       ph::canonicalize_opaque_pathname(a0), ph::canonicalize_search(a0), ph::canonicalize_hash(a0)})
-          if (r) { touch(*r); ok++; }
-        note(EP_PH_CANON, ok, ok);
-      });
+      PI1(EP_PH_C_PROTOCOL, ph::canonicalize_protocol(a0));
+      PI1(EP_PH_C_USERNAME, ph::canonicalize_username(a0));
+      PI1(EP_PH_C_PASSWORD, ph::canonicalize_password(a0));
+      PI1(EP_PH_C_HOSTNAME, ph::canonicalize_hostname(a0));
+      PI1(EP_PH_C_IPV6, ph::canonicalize_ipv6_hostname(a0));
+      PI1(EP_PH_C_PORT, ph::canonicalize_port(a0));
+      PI1(EP_PH_C_PORT_PROTO, ph::canonicalize_port_with_protocol(a0, "https"));
+      PI1(EP_PH_C_PORT_PROTO, ph::canonicalize_port_with_protocol(a0, a0));
+      PI1(EP_PH_C_PATHNAME, ph::canonicalize_pathname(a0));
+      PI1(EP_PH_C_OPAQUE, ph::canonicalize_opaque_pathname(a0));
+      PI1(EP_PH_C_SEARCH, ph::canonicalize_search(a0));
+      PI1(EP_PH_C_HASH, ph::canonicalize_hash(a0));
       call(EP_PH_MISC, [&] {
         std::string a = ph::escape_pattern_string(a0), b = ph::escape_regexp_string(a0); touch(a); touch(b);
         bool v6 = ph::is_ipv6_address(a0);
@@ -1053,6 +1081,12 @@ static std::vector<std::string> raw_tokens() {
           std::string(1, '\0'), "\x80", "\xBF", "\xC0", "\xC3", "\xE2\x82", "\xED\xA0\x80", "\xF4\x90\x80\x80", "\xFF", "%f", "%ff", "xn--!",
           "xn--999999999999", EACUTE, "\xEF\xBF\xBD", "\xF0\x9F\x98\x80"};
 }
+// the odd-byte tokens plus the structure tokens that decide the parser state: used one notch deeper than the full alphabet
+static std::vector<std::string> raw_tokens_small() {
+  return {"http:", "//", "/", "?", "#", "@", ":", "%",
+          std::string(1, '\0'), "\x80", "\xBF", "\xC0", "\xC3", "\xE2\x82", "\xED\xA0\x80", "\xF4\x90\x80\x80", "\xFF", "%f", "%ff", "xn--!",
+          "xn--999999999999", EACUTE, "\xEF\xBF\xBD", "\xF0\x9F\x98\x80"};
+}
 static std::vector<std::string> idna_tokens() {
   return {"xn--", "a", "-", ".", "1", "z", "9", "A", EACUTE, "\xC3\x9F", "\xCC\x81", "\xE2\x80\x8C", "\xD7\x90", "\xD8\xA7", "\xE3\x80\x82", "\xEA\xB0\x80",
           "\xF0\x9F\x98\x80", "\x80", "\xFF", "\xED\xA0\x80", "%", std::string(1, '\0')};
@@ -1079,23 +1113,29 @@ static std::vector<std::string> rel_menu() {
 
 struct Tune {
   bool T = false;
-  int kparse, kparsefull, kset1, kset2a, kset2b, set2states, kset2wide, set3vals, set3states, kparams, pdepth, kidna, kcp, kuni, kpat, kpatin, sweepbytes, sweeptemplates, kipv4, kcapi;
+  // k = max tokens per string. "small" = the 24-token sub-alphabet (every odd byte token + 8 structure tokens), used one notch deeper.
+  int kparse, kparsefull, kparse_small, kset1, set1states, kset1_few, kset2a, kset2b, set2states, kset2wide, set2widestates, set3vals, set3states, kparams, pdepth, pkeys,
+      kidna, kidna_idn, kcp, kuni, kuni_small, kpat, kpat_light, kpatin, sweepbytes, sweeptemplates, kipv4, kcapi;
 };
 static Tune tune_for(const Args& A, bool vg) {
   Tune t; t.T = !A.quick();
   if (vg) {  // valgrind on the uninstrumented build: about a tenth of the quick enumeration
-    t.kparse = 2; t.kparsefull = 1; t.kset1 = 1; t.kset2a = 0; t.kset2b = 0; t.set2states = 4; t.kset2wide = 0; t.set3vals = 0; t.set3states = 0; t.kparams = 2; t.pdepth = 1;
-    t.kidna = 2; t.kcp = 2; t.kuni = 2; t.kpat = 1; t.kpatin = 1; t.sweepbytes = 3; t.sweeptemplates = 2; t.kipv4 = 4; t.kcapi = 1;
+    t.kparse = 2; t.kparsefull = 1; t.kparse_small = 0; t.kset1 = 1; t.set1states = 12; t.kset1_few = 0; t.kset2a = 0; t.kset2b = 0; t.set2states = 4; t.kset2wide = 0; t.set2widestates = 0;
+    t.set3vals = 0; t.set3states = 0; t.kparams = 2; t.pdepth = 1; t.pkeys = 4; t.kidna = 2; t.kidna_idn = 2; t.kcp = 2; t.kuni = 2; t.kuni_small = 0; t.kpat = 1; t.kpat_light = 0; t.kpatin = 1;
+    t.sweepbytes = 3; t.sweeptemplates = 2; t.kipv4 = 4; t.kcapi = 1;
   } else if (!t.T) {
-    t.kparse = 3; t.kparsefull = 2; t.kset1 = 2; t.kset2a = 1; t.kset2b = 1; t.set2states = 6; t.kset2wide = 0; t.set3vals = 3; t.set3states = 4; t.kparams = 3; t.pdepth = 2;
-    t.kidna = 3; t.kcp = 3; t.kuni = 3; t.kpat = 2; t.kpatin = 2; t.sweepbytes = 10; t.sweeptemplates = 3; t.kipv4 = 6; t.kcapi = 2;
+    t.kparse = 3; t.kparsefull = 2; t.kparse_small = 0; t.kset1 = 2; t.set1states = 6; t.kset1_few = 0; t.kset2a = 1; t.kset2b = 1; t.set2states = 2; t.kset2wide = 0; t.set2widestates = 0;
+    t.set3vals = 3; t.set3states = 2; t.kparams = 3; t.pdepth = 2; t.pkeys = 7; t.kidna = 3; t.kidna_idn = 3; t.kcp = 3; t.kuni = 3; t.kuni_small = 0; t.kpat = 2; t.kpat_light = 0; t.kpatin = 2;
+    t.sweepbytes = 6; t.sweeptemplates = 3; t.kipv4 = 4; t.kcapi = 2;
   } else {
-    t.kparse = 4; t.kparsefull = 3; t.kset1 = 3; t.kset2a = 1; t.kset2b = 1; t.set2states = 18; t.kset2wide = 2; t.set3vals = 10; t.set3states = 12; t.kparams = 4; t.pdepth = 3;
-    t.kidna = 4; t.kcp = 4; t.kuni = 4; t.kpat = 3; t.kpatin = 3; t.sweepbytes = 20; t.sweeptemplates = 8; t.kipv4 = 7; t.kcapi = 3;
+    t.kparse = 3; t.kparsefull = 3; t.kparse_small = 4; t.kset1 = 2; t.set1states = 18; t.kset1_few = 3; t.kset2a = 1; t.kset2b = 1; t.set2states = 12; t.kset2wide = 2; t.set2widestates = 4;
+    t.set3vals = 6; t.set3states = 8; t.kparams = 3; t.pdepth = 3; t.pkeys = 4; t.kidna = 3; t.kidna_idn = 4; t.kcp = 4; t.kuni = 3; t.kuni_small = 4; t.kpat = 2; t.kpat_light = 3; t.kpatin = 3;
+    t.sweepbytes = 12; t.sweeptemplates = 8; t.kipv4 = 6; t.kcapi = 2;
   }
 #define TV(f) t.f = int(A.geti(#f, t.f))
-  TV(kparse); TV(kparsefull); TV(kset1); TV(kset2a); TV(kset2b); TV(set2states); TV(kset2wide); TV(set3vals); TV(set3states); TV(kparams); TV(pdepth); TV(kidna); TV(kcp); TV(kuni); TV(kpat); TV(kpatin);
-  TV(sweepbytes); TV(sweeptemplates); TV(kipv4); TV(kcapi);
+  TV(kparse); TV(kparsefull); TV(kparse_small); TV(kset1); TV(set1states); TV(kset1_few); TV(kset2a); TV(kset2b); TV(set2states); TV(kset2wide); TV(set2widestates); TV(set3vals);
+  TV(set3states); TV(kparams); TV(pdepth); TV(pkeys); TV(kidna); TV(kidna_idn); TV(kcp); TV(kuni); TV(kuni_small); TV(kpat); TV(kpat_light); TV(kpatin); TV(sweepbytes);
+  TV(sweeptemplates); TV(kipv4); TV(kcapi);
 #undef TV
   return t;
 }
@@ -1103,18 +1143,29 @@ static Tune tune_for(const Args& A, bool vg) {
 // ================================================================== worker: the enumeration
 struct Walk {
   int sh = 0, ns = 1;
-  int resume_stage = 0; uint64_t resume_unit = 0; bool resume = false;   // skip units <= resume_unit of resume_stage
+  int resume_stage = 0; uint64_t resume_unit = 0; uint32_t resume_sub = 0; bool resume = false;   // skip units < resume_unit of resume_stage and cases <= resume_sub of that unit
+  uint32_t sub = 0;
   double t_end = 1e18;
+  double t0 = 0, budget = 0;   // start of the shard and its time budget: stage s must be over by t0 + budget * CUM[s], slack carries over
+  double stage_end = 1e18;
   int only_stage = -1;
   int sample_fd = -1;
-  int stage = 0; uint64_t ord = 0; bool cut = false;
-  uint64_t sample_at = 0;
+  int stage = 0; uint64_t ord = 0, taken = 0; bool cut = false;
+  uint64_t sample_at = 0, ran = 0;
   double t_stage = 0;
   bool begin_stage(int s) {
     stage = s; ord = 0; cut = false;
     if (only_stage >= 0 && s != only_stage) return false;
     if (resume && s < resume_stage) return false;
     if (SH->stage_state[s] == 4) return false;
+    if (now_s() > t_end) { SH->deadline_hit = 1; return false; }
+    {
+      // share of the shard's time each stage may use when the machine is too slow for everything (measured proportions)
+      static const double FRAC[ST_COUNT] = {.22, .06, .12, .06, .04, .03, .05, .02, .04, .10, .04, .14, .04, .04};
+      double cum = 0;
+      for (int i = 0; i <= s; i++) cum += FRAC[i];
+      stage_end = budget > 0 && only_stage < 0 ? std::min(t_end, t0 + budget * cum) : t_end;
+    }
     SH->stage_state[s] = 1;
     sample_at = SH->stage_cases[s] + 97;
     t_stage = now_s();
@@ -1125,13 +1176,19 @@ struct Walk {
     uint64_t o = ord++;
     if (cut) return false;
     if (int(o % uint64_t(ns)) != sh) return false;
-    if (resume && stage == resume_stage && resume_unit != ~0ull && o <= resume_unit) return false;
-    if ((o & 63) == 0 && now_s() > t_end) { cut = true; SH->deadline_hit = 1; return false; }
+    if (resume && stage == resume_stage && resume_unit != ~0ull && o < resume_unit) return false;
+    if ((++taken & 15) == 0 && now_s() > stage_end) { cut = true; SH->deadline_hit = 1; return false; }
     SH->stage_units[stage]++;
+    sub = 0;
     return true;
   }
   uint64_t unit() const { return ord - 1; }
   void run() {
+    if (cut) return;
+    const uint32_t my = sub++;
+    if (resume && stage == resume_stage && resume_unit != ~0ull && unit() == resume_unit && my <= resume_sub) return;  // already executed by the worker that died
+    SH->cur.sub = my;
+    if ((++ran & 255) == 0 && now_s() > stage_end + 15) { cut = true; SH->deadline_hit = 1; return; }  // a unit that outlives the deadline by 20 s is cut short
     run_case();
     if (sample_fd >= 0 && sh == 0 && SH->stage_cases[stage] == sample_at) {
       std::string l = case_json(SH->cur, -1, int(SH->ep), "", g_vg) + "\n";
@@ -1215,23 +1272,29 @@ static void worker_enumerate(const Args& A, Walk& W, const Tune& t) {
       }
     });
     // longer strings: no base, one special and one non-special base, and as the base of one input
-    for_tokens(W, RAW, t.kparsefull + 1, t.kparse, [&](const std::string& s) {
+    auto medium = [&](const std::string& s) {
       const uint64_t u = light(s);
       with_base(u, s, bases[0]);
       with_base(u, s, bases[6]);
       with_base(u, "../x?y#z", s);
-    });
+    };
+    for_tokens(W, RAW, t.kparsefull + 1, t.kparse, medium);
+    if (t.kparse_small > t.kparse) for_tokens(W, raw_tokens_small(), t.kparse + 1, t.kparse_small, medium);
     W.end_stage();
   }
 
   // ---- setters depth 1: every string as value of every setter on every state, both types; clears once per state
   if (W.begin_stage(ST_SET1)) {
-    for_tokens(W, RAW, 0, t.kset1, [&](const std::string& s) {
-      const uint64_t u = W.unit();
-      for (auto& st : states)
-        for (int ty = 0; ty < 2; ty++)
-          for (int k = 0; k < 10; k++) { cb_begin(ST_SET1, u); cb_add(OP_PARSE, ty, 1, st); cb_add(OP_SET + k, ty, 1, s); cb_add(OP_GETTERS, ty); W.run(); }
-    });
+    auto on_states = [&](size_t nst) {
+      return [&, nst](const std::string& s) {
+        const uint64_t u = W.unit();
+        for (size_t si = 0; si < nst && si < states.size(); si++)
+          for (int ty = 0; ty < 2; ty++)
+            for (int k = 0; k < 10; k++) { cb_begin(ST_SET1, u); cb_add(OP_PARSE, ty, 1, states[si]); cb_add(OP_SET + k, ty, 1, s); cb_add(OP_GETTERS, ty); W.run(); }
+      };
+    };
+    for_tokens(W, RAW, 0, t.kset1, on_states(size_t(t.set1states)));
+    if (t.kset1_few > t.kset1) for_tokens(W, RAW, t.kset1 + 1, t.kset1_few, on_states(4));   // longer values on the first four states
     for (auto& st : states)
       for (int k = 10; k < 13; k++)
         if (W.take()) { cb_begin(ST_SET1, W.unit()); cb_add(OP_PARSE, 1, 1, st); cb_add(OP_SET + k, 1, 0); cb_add(OP_GETTERS, 1); W.run(); }
@@ -1244,9 +1307,9 @@ static void worker_enumerate(const Args& A, Walk& W, const Tune& t) {
     const std::vector<std::string> R10 = {"", "/", "\x80", "?", "#", "@", ":", "..", "%", "\\"};
     for (int pass = 0; pass < 2 && !W.cut; pass++) {
       if (pass == 1 && t.kset2wide <= 0) break;
-      const auto V1 = all_tokens(RAW, pass ? t.kset2wide : t.kset2a);
+      const auto V1 = pass ? all_tokens(raw_tokens_small(), t.kset2wide) : all_tokens(RAW, t.kset2a);
       const auto V2 = pass ? R10 : all_tokens(RAW, t.kset2b);
-      const size_t nst = pass ? std::min<size_t>(12, states.size()) : std::min<size_t>(size_t(t.set2states), states.size());
+      const size_t nst = std::min<size_t>(size_t(pass ? t.set2widestates : t.set2states), states.size());
       for (size_t si = 0; si < nst; si++)
         for (int ty = 0; ty < 2; ty++)
           for (int k1 = 0; k1 < (ty ? 13 : 10) && !W.cut; k1++)
@@ -1311,7 +1374,8 @@ static void worker_enumerate(const Args& A, Walk& W, const Tune& t) {
     struct PO { int op, nargs; std::string k, v; };
     std::vector<PO> ops;
     std::vector<int> mut;
-    const std::vector<std::string> PK = {"a", "b", "", EACUTE, "\xff", "%41", "a=b&c"}, PV = {"", "1", " &", "\x80"};
+    std::vector<std::string> PK = {"a", "", "\xff", "a=b&c", "b", EACUTE, "%41"}, PV = {"", "1", " &", "\x80"};
+    PK.resize(std::min<size_t>(PK.size(), size_t(std::max(1, t.pkeys))));
     const std::vector<std::string> inits = {"", "a=1&b=2&a=3", "?" EACUTE "=%41+&&=x&a", "\xff=%f&%=\x80&a=%zz+"};
     for (auto& k : PK) for (auto& v : PV) ops.push_back({OP_P_APPEND, 2, k, v});
     for (auto& k : PK) for (auto& v : PV) ops.push_back({OP_P_SET, 2, k, v});
@@ -1350,7 +1414,7 @@ static void worker_enumerate(const Args& A, Walk& W, const Tune& t) {
       for (int op : {OP_I_TO_ASCII, OP_I_TO_UNICODE, OP_I_UTF8, OP_I_PUNY, OP_I_MISC8}) { cb_begin(ST_IDNA8, u); cb_add(op, 0, 1, s); W.run(); }
     };
     for_tokens(W, RAW, 0, t.kidna, one);
-    for_tokens(W, idna_tokens(), 1, t.kidna, one);
+    for_tokens(W, idna_tokens(), 1, t.kidna_idn, one);
     W.end_stage();
   }
 
@@ -1374,10 +1438,12 @@ static void worker_enumerate(const Args& A, Walk& W, const Tune& t) {
 
   // ---- percent-encode/decode helpers and checkers
   if (W.begin_stage(ST_UNICODE)) {
-    for_tokens(W, RAW, 0, t.kuni, [&](const std::string& s) {
+    auto one = [&](const std::string& s) {
       cb_begin(ST_UNICODE, W.unit()); cb_add(OP_U_ALL, 0, 1, s); W.run();
       cb_begin(ST_UNICODE, W.unit()); cb_add(OP_CK, 0, 1, s); W.run();
-    });
+    };
+    for_tokens(W, RAW, 0, t.kuni, one);
+    if (t.kuni_small > t.kuni) for_tokens(W, raw_tokens_small(), t.kuni + 1, t.kuni_small, one);
     W.end_stage();
   }
 
@@ -1404,6 +1470,14 @@ static void worker_enumerate(const Args& A, Walk& W, const Tune& t) {
     };
     for_tokens(W, RAW, 0, t.kpat, one);
     for_tokens(W, pat_tokens(), 1, t.kpat, one);
+    // one notch deeper over the pattern-syntax alphabet: constructor string and pathname member only
+    if (t.kpat_light > t.kpat)
+      for_tokens(W, pat_tokens(), t.kpat + 1, t.kpat_light, [&](const std::string& s) {
+        const uint64_t u = W.unit();
+        cb_begin(ST_PATTERN, u); cb_add(OP_PAT_STR, 0, 1, s); cb_add(OP_PAT_GETTERS, 0, 1, s); cb_add(OP_PAT_RUN_STR, 0, 1, PAT_FIXED_BASE); cb_add(OP_PAT_RUN_STR, 0, 1, s); W.run();
+        cb_begin(ST_PATTERN, u); cb_add(OP_PAT_INIT, 5, 1, s); cb_add(OP_PAT_GETTERS, 0, 1, s); cb_add(OP_PAT_RUN_STR, 0, 1, PAT_FIXED_BASE); cb_add(OP_PAT_RUN_INIT, 5, 1, s); W.run();
+        cb_begin(ST_PATTERN, u); cb_add(OP_PH_ALL, 0, 1, s); W.run();
+      });
     W.end_stage();
   }
 
@@ -1424,12 +1498,13 @@ static void worker_enumerate(const Args& A, Walk& W, const Tune& t) {
 
   // ---- length sweep: every length 0..70 of a filler, every interesting byte at every offset
   if (W.begin_stage(ST_SWEEP)) {
-    std::vector<std::string> bytes = {"\t", "%", "/", "\\", "?", "\x80", "A", std::string(1, '\0'), ":", "#", "\n", "\r", " ", "@", ".", "[", "\xC3", "\xFF", "+", "&"};
+    std::vector<std::string> bytes = {"\t", "%", "/", "\x80", "A", std::string(1, '\0'), "\\", "?", ":", "#", "\n", "\r", " ", "@", ".", "[", "\xC3", "\xFF", "+", "&"};
     bytes.resize(std::min<size_t>(bytes.size(), size_t(t.sweepbytes)));
     struct TP { const char* pre; const char* post; };
     std::vector<TP> tps = {{"", ""}, {"http://", "/"}, {"http://h/", ""}, {"http://h/?", ""}, {"http://h/#", ""}, {"a:", ""}, {"a://", "/p"}, {"http://u:", "@h/"}};
     tps.resize(std::min<size_t>(tps.size(), size_t(t.sweeptemplates)));
-    const std::vector<std::string> sstates = {"https://u:p@example.com:8080/a/b?q#f", "a://h:1/p?q#f", "file:///C:/x/y"};
+    std::vector<std::string> sstates = {"https://u:p@example.com:8080/a/b?q#f", "a://h:1/p?q#f", "file:///C:/x/y"};
+    if (!t.T) sstates.resize(2);
     auto one = [&](const std::string& x) {
       const uint64_t u = W.unit();
       for (size_t ti = 0; ti < tps.size(); ti++) {
@@ -1538,7 +1613,9 @@ static int worker_main(const Args& A) {
   W.resume = A.geti("resume", 0) != 0;
   W.resume_stage = int(A.geti("resume-stage", 0));
   W.resume_unit = strtoull(A.get("resume-unit", "0").c_str(), nullptr, 10);
+  W.resume_sub = uint32_t(A.geti("resume-sub", 0));
   W.t_end = atof(A.get("tend", "1e18").c_str());
+  W.t0 = atof(A.get("tstart", "0").c_str()); W.budget = atof(A.get("budget", "0").c_str());
   W.only_stage = int(A.geti("only-stage", -1));
   const std::string stg = A.get("stage-name");
   if (!stg.empty()) for (int i = 0; i < ST_COUNT; i++) if (stg == STAGE_NAME[i]) W.only_stage = i;
@@ -1585,14 +1662,14 @@ static int worker_replay(const Args& A) {
 }
 
 // ================================================================== supervisor
-struct Death { bool died = false, timed_out = false; int status = 0; std::string text; };
+struct Death { bool died = false, timed_out = false, over_deadline = false; int status = 0; std::string text; };
 
 static std::string self_exe() {
   char b[4096]; ssize_t n = readlink("/proc/self/exe", b, sizeof b - 1);
   return n > 0 ? std::string(b, size_t(n)) : std::string();
 }
 
-static Death run_worker(const std::vector<std::string>& wargs, const std::string& errpath, bool vg, double watchdog) {
+static Death run_worker(const std::vector<std::string>& wargs, const std::string& errpath, bool vg, double watchdog, double hard_end = 1e18) {
   Death d;
   int efd = open(errpath.c_str(), O_RDWR | O_CREAT | O_TRUNC, 0600);
   fflush(stdout); fflush(stderr);
@@ -1612,7 +1689,19 @@ static Death run_worker(const std::vector<std::string>& wargs, const std::string
     _exit(127);
   }
   if (efd >= 0) close(efd);
-  uint64_t last = SH->seq; double t_last = now_s();
+  // A call is taken to hang when the worker has burnt `watchdog` CPU seconds without starting another call, or has made no
+  // progress for 20x that long in wall time (blocked). Wall time alone says nothing on a machine shared with other jobs,
+  // and a dying worker that is writing its report (symbolizer) is given the time to finish.
+  auto cpu_s = [&]() -> double {
+    std::string st = read_file("/proc/" + std::to_string(pid) + "/stat");
+    size_t rp = st.rfind(')');
+    if (rp == std::string::npos) return 0;
+    unsigned long ut = 0, stt = 0; int n = 0; size_t q = rp + 1;
+    while (q < st.size() && n < 11) { while (q < st.size() && st[q] == ' ') q++; while (q < st.size() && st[q] != ' ') q++; n++; }
+    if (sscanf(st.c_str() + q, "%lu %lu", &ut, &stt) != 2) return 0;
+    return double(ut + stt) / double(sysconf(_SC_CLK_TCK));
+  };
+  uint64_t last = SH->seq; double t_last = now_s(), c_last = 0;
   int st = 0;
   for (;;) {
     pid_t r = waitpid(pid, &st, WNOHANG);
@@ -1620,8 +1709,16 @@ static Death run_worker(const std::vector<std::string>& wargs, const std::string
     if (r < 0) { st = 0; break; }
     usleep(20000);
     uint64_t s = SH->seq;
-    if (s != last) { last = s; t_last = now_s(); }
-    else if (now_s() - t_last > watchdog) { d.timed_out = true; kill(pid, SIGKILL); waitpid(pid, &st, 0); break; }
+    if (s != last) { last = s; t_last = now_s(); c_last = -1; }
+    else if (now_s() - t_last > 2) {
+      double c = cpu_s();
+      if (c_last < 0) c_last = c;
+      struct stat sb; const bool reporting = stat(errpath.c_str(), &sb) == 0 && sb.st_size > 0;
+      const bool hung = SH->in_call && !reporting && (c - c_last > watchdog || now_s() - t_last > 20 * watchdog);
+      const bool stuck = now_s() - t_last > 40 * watchdog;   // whatever it is doing, it is not coming back
+      if (hung || stuck) { d.timed_out = hung; d.over_deadline = !hung; kill(pid, SIGKILL); waitpid(pid, &st, 0); break; }
+    }
+    if (now_s() > hard_end) { d.over_deadline = true; kill(pid, SIGKILL); waitpid(pid, &st, 0); break; }
   }
   d.status = st;
   d.died = d.timed_out || !(WIFEXITED(st) && WEXITSTATUS(st) == 0) || !SH->finished;
@@ -1643,17 +1740,46 @@ static std::string line_at(const std::string& t, size_t p) {
   return t.substr(b, std::min<size_t>(e - b, 400));
 }
 // (kind, detail line, not-ada's-code marker)
-struct Kind { std::string kind, detail; bool libstdcxx_regex = false; };
+struct Kind { std::string kind, detail, site; bool libstdcxx_regex = false; };
+// innermost stack frame of the first report that is a function of the library ("#n 0x.. in ada::f(...)"), without arguments
+static std::string ada_site(const std::string& t, bool* regex_above) {
+  size_t p = t.find("    #0 ");
+  if (regex_above) *regex_above = false;
+  while (p != std::string::npos) {
+    size_t e = t.find('\n', p); if (e == std::string::npos) e = t.size();
+    std::string l = t.substr(p, e - p);
+    if (l.find("    #") != 0) break;
+    size_t q = l.find(" in ");
+    if (q != std::string::npos) {
+      std::string f = l.substr(q + 4);
+      if (f.rfind("ada::", 0) == 0 || f.rfind("ada_", 0) == 0) {
+        size_t c = f.find_first_of("([< ");
+        f = f.substr(0, c);
+        if (f.rfind("ada::", 0) == 0) f = f.substr(5);
+        return f;
+      }
+      if (regex_above && (f.find("std::__detail::_") == 0 || f.find("std::__cxx11::regex_traits") == 0 || f.find("std::__cxx11::basic_regex") == 0)) *regex_above = true;
+    }
+    p = e < t.size() ? e + 1 : std::string::npos;
+    if (p != std::string::npos && p >= t.size()) break;
+  }
+  return "";
+}
 static Kind classify_death(const Death& d) {
   Kind k;
   const std::string& t = d.text;
   size_t p;
   if (d.timed_out) { k.kind = "timeout"; k.detail = "no library call completed within the watchdog interval"; return k; }
-  if ((p = t.find("AddressSanitizer: ")) != std::string::npos) {
+  bool regex_above = false;
+  k.site = ada_site(t, &regex_above);
+  if ((p = t.find("Assertion '")) != std::string::npos) { k.kind = "glibcxx-assertion"; k.detail = line_at(t, p); return k; }
+  if ((p = t.find("terminate called")) != std::string::npos) { k.kind = "terminate"; k.detail = line_at(t, p); size_t w = t.find("what():", p); if (w != std::string::npos) k.detail += " " + line_at(t, w); return k; }
+  if ((p = t.find("AddressSanitizer: ")) != std::string::npos && t.compare(p + 18, 12, "DEADLYSIGNAL") == 0) p = t.find("AddressSanitizer: ", p + 18);
+  if (p != std::string::npos && t.compare(p, 18, "AddressSanitizer: ") == 0) {
     size_t b = p + 18, e = b;
     while (e < t.size() && t[e] != '\n' && t.compare(e, 4, " on ") != 0 && t[e] != '(' && t[e] != ':') e++;
     k.kind = "asan-" + slug(t.substr(b, e - b)); k.detail = line_at(t, p);
-    if (k.kind == "asan-stack-overflow" && t.find("_Executor<") != std::string::npos) k.libstdcxx_regex = true;
+    if (k.kind == "asan-stack-overflow" && (regex_above || t.find("_Executor<") != std::string::npos)) k.libstdcxx_regex = true;
     return k;
   }
   if ((p = t.find("runtime error: ")) != std::string::npos) {
@@ -1699,7 +1825,7 @@ static void load_violation_lines(const std::string& path, Reporter& R) {
 static std::vector<std::string> passthrough(const Args& A) {
   std::vector<std::string> v = {"--tier", A.tier};
   for (auto& [k, val] : A.kv)
-    if (k != "shm" && k != "viol" && k != "samples" && k != "lsan" && k != "worker" && k != "resume" && k != "resume-stage" && k != "resume-unit" && k != "tend" && k != "replay-doc") {
+    if (k != "shm" && k != "viol" && k != "samples" && k != "lsan" && k != "worker" && k != "resume" && k != "resume-stage" && k != "resume-unit" && k != "resume-sub" && k != "tend" && k != "tstart" && k != "budget" && k != "replay-doc") {
       v.push_back("--" + k); v.push_back(val);
     }
   return v;
@@ -1717,21 +1843,22 @@ static int supervise(const Args& A) {
   if (!SH) { fprintf(stderr, "harness: cannot create %s\n", shm.c_str()); return 3; }
   const double t0 = now_s();
   const double deadline = A.deadline_s < 1e8 ? A.deadline_s : (A.quick() ? 240.0 : 1700.0);
-  const double watchdog = atof(A.get("watchdog", vg ? "120" : "30").c_str());
+  const double watchdog = atof(A.get("watchdog", vg ? "60" : "15").c_str());   // CPU seconds inside one call
   Reporter R;
   std::map<std::string, std::string> extra;
   int crashes = 0, crashes_in_stage[NSTAGES] = {}, ignored_regex = 0;
-  bool resume = false; int rs = 0; uint64_t ru = 0;
+  bool resume = false; int rs = 0; uint64_t ru = 0; uint32_t rsub = 0;
   std::string harness_failure;
   for (;;) {
     std::vector<std::string> w = passthrough(A);
     for (auto& s : std::vector<std::string>{"--worker", "1", "--shm", shm, "--viol", viol, "--samples", samp, "--lsan", lsan, "--shard", std::to_string(A.shard) + "/" + std::to_string(std::max(1, A.nshards)),
-                                            "--resume", resume ? "1" : "0", "--resume-stage", std::to_string(rs), "--resume-unit", std::to_string(ru), "--tend", std::to_string(t0 + deadline)})
+                                            "--resume", resume ? "1" : "0", "--resume-stage", std::to_string(rs), "--resume-unit", std::to_string(ru), "--resume-sub", std::to_string(rsub), "--tend", std::to_string(t0 + deadline), "--tstart", std::to_string(t0), "--budget", std::to_string(deadline)})
       w.push_back(s);
     SH->finished = 0; SH->in_call = 0;
-    Death d = run_worker(w, err, vg, watchdog);
+    Death d = run_worker(w, err, vg, watchdog, t0 + deadline + 45);
     if (A.geti("verbose", 0)) fprintf(stderr, "[drv_raw] worker output:\n%s\n", d.text.c_str());
     if (!d.died) break;
+    if (d.over_deadline) { SH->deadline_hit = 1; break; }
     Kind k = classify_death(d);
     const Case c = SH->cur;
     const int ep = int(SH->ep);
@@ -1746,8 +1873,8 @@ static int supervise(const Args& A) {
       R.count("ignored:libstdc++-regex:" + k.kind);
     } else {
       Violation v;
-      v.cls = "C02/" + k.kind + "/" + en;
-      v.summary = k.kind + " in " + en + " (step " + std::to_string(SH->step) + " of: " + case_show(c) + ") -- " + k.detail;
+      v.cls = "C02/" + k.kind + "/" + (k.site.empty() ? en : k.site);
+      v.summary = k.kind + " in " + en + (k.site.empty() ? "" : " at " + k.site) + " (step " + std::to_string(SH->step) + " of: " + case_show(c) + ") -- " + k.detail;
       v.witness = case_json(c, int(SH->step), ep, k.kind.c_str(), vg);
       v.size = case_size(c);
       R.violation(std::move(v));
@@ -1756,15 +1883,15 @@ static int supervise(const Args& A) {
     crashes++;
     const int cs = c.stage < NSTAGES ? int(c.stage) : 0;
     crashes_in_stage[cs]++;
-    resume = true; rs = cs; ru = c.unit;
+    resume = true; rs = cs; ru = c.unit; rsub = c.sub;
     if (c.unit == ~0ull) {  // died in the end-of-stage leak check: go on with the next stage
       SH->stage_state[cs] = 2; rs = cs + 1; ru = 0;
       if (rs >= ST_COUNT) break;
       // units of stage rs are all > "unit 0 already done" only if we do not skip unit 0: mark with resume off for that stage
       resume = true; ru = ~0ull;
     }
-    if (crashes_in_stage[cs] >= 3) { SH->stage_state[cs] = 4; R.exhaustive = false; R.note += std::string("stage ") + STAGE_NAME[cs] + " abandoned after 3 dying units; "; }
-    if (crashes >= 24) { R.exhaustive = false; R.note += "enumeration stopped after 24 dying units; "; break; }
+    if (crashes_in_stage[cs] >= 8) { SH->stage_state[cs] = 4; R.exhaustive = false; R.note += std::string("stage ") + STAGE_NAME[cs] + " abandoned after 8 dying cases; "; }
+    if (crashes >= 40) { R.exhaustive = false; R.note += "enumeration stopped after 40 dying cases; "; break; }
     if (now_s() - t0 > deadline) { SH->deadline_hit = 1; break; }
   }
   if (!harness_failure.empty()) {
@@ -1809,7 +1936,10 @@ static int supervise(const Args& A) {
     extra["raw_tokens"] = std::to_string(raw_tokens().size()); extra["idna_tokens"] = std::to_string(idna_tokens().size());
     extra["pattern_tokens"] = std::to_string(pat_tokens().size()); extra["code_points"] = std::to_string(cp_alphabet().size());
     extra["bases"] = std::to_string(base_menu().size()); extra["states"] = std::to_string(state_menu(t.T).size()); extra["relative_inputs"] = std::to_string(rel_menu().size());
-    extra["k_parse"] = std::to_string(t.kparse); extra["k_parse_all_bases"] = std::to_string(t.kparsefull);
+    extra["k_parse"] = std::to_string(t.kparse); extra["k_parse_all_bases"] = std::to_string(t.kparsefull); extra["k_parse_small_alphabet"] = std::to_string(t.kparse_small);
+    extra["small_alphabet_tokens"] = std::to_string(raw_tokens_small().size()); extra["setter_depth1_states"] = std::to_string(t.set1states); extra["k_setter_depth1_four_states"] = std::to_string(t.kset1_few);
+    extra["setter_depth2_wide_states"] = std::to_string(t.set2widestates); extra["params_keys"] = std::to_string(t.pkeys); extra["k_idna_idn_alphabet"] = std::to_string(t.kidna_idn);
+    extra["k_unicode_helpers_small_alphabet"] = std::to_string(t.kuni_small); extra["k_pattern_syntax_alphabet_light"] = std::to_string(t.kpat_light);
     extra["setter_depth2_states"] = std::to_string(t.set2states); extra["k_setter_depth2_wide_first_value"] = std::to_string(t.kset2wide); extra["k_setter_depth1"] = std::to_string(t.kset1); extra["k_setter_depth2_first"] = std::to_string(t.kset2a);
     extra["k_setter_depth2_second"] = std::to_string(t.kset2b); extra["setter_depth3_values"] = std::to_string(t.set3vals); extra["setter_depth3_states"] = std::to_string(t.set3states);
     extra["k_params"] = std::to_string(t.kparams); extra["params_depth"] = std::to_string(t.pdepth); extra["k_idna"] = std::to_string(t.kidna); extra["k_code_points"] = std::to_string(t.kcp);
@@ -1845,8 +1975,9 @@ static int supervise_replay(const Args& A) {
   std::vector<std::string> w = passthrough(A);
   std::string tier = json_get_str(doc, "tier");
   for (auto& s : std::vector<std::string>{"--worker", "2", "--shm", shm, "--viol", viol, "--lsan", lsan, "--replay-doc", A.replay, "--vg", vg ? "1" : "0"}) w.push_back(s);
-  Death d = run_worker(w, err, vg, atof(A.get("watchdog", vg ? "120" : "60").c_str()));
+  Death d = run_worker(w, err, vg, atof(A.get("watchdog", vg ? "60" : "15").c_str()));
   Reporter R;
+  if (d.died && d.over_deadline) { printf("inconclusive: the replay worker made no progress for a very long time without using CPU (machine overloaded?)\n"); d.died = false; }
   if (d.died) {
     Kind k = classify_death(d);
     const int ep = int(SH->ep);
@@ -1854,8 +1985,8 @@ static int supervise_replay(const Args& A) {
     if (!SH->in_call && !d.timed_out && SH->phase != 1) printf("harness failure during replay (outside any library call): %s\n%s\n", k.detail.c_str(), d.text.substr(0, 2000).c_str());
     else if (k.libstdcxx_regex) printf("report inside libstdc++ std::regex (%s): not counted\n", k.detail.c_str());
     else {
-      Violation v; v.cls = "C02/" + k.kind + "/" + en;
-      v.summary = k.kind + " in " + en + " (step " + std::to_string(SH->step) + " of: " + case_show(SH->cur) + ") -- " + k.detail;
+      Violation v; v.cls = "C02/" + k.kind + "/" + (k.site.empty() ? en : k.site);
+      v.summary = k.kind + " in " + en + (k.site.empty() ? "" : " at " + k.site) + " (step " + std::to_string(SH->step) + " of: " + case_show(SH->cur) + ") -- " + k.detail;
       R.violation(std::move(v));
     }
   }
